@@ -4,18 +4,26 @@ import (
 	"bytes"
 	"crypto/sha256"
 	"fmt"
+	"strings"
+
+	"github.com/canopy-network/canopy/lib"
+	"github.com/canopy-network/canopy/store"
 
 	"verifharness/c08"
 	"verifharness/drv"
 )
 
-// RunWitnesses replays, on the real code, the states and calls of the Lean witness theorems of Props/C16.lean
+// RunWitnesses is the PERMANENT CORPUS of C16: it runs first on every check and replays, on the real code, the states
+// and calls of the Lean witness theorems of Props/C16.lean part A (theorems about the pre-fix model). Since the fix
+// commits 9904ec4 (VerifyProof) and 28c6f9a (NewReadOnly prefix) every scenario must be rejected / served correctly;
+// a regression makes the oracle fail with the scenario's signature and its replay.
 // (4-bit keys; the pool holds one user key per 4-bit hash image):
 //
 //	sound_fails_foreign_nonmembership        state {0001, 1011}        proof(1011) as "0001 is absent"
 //	sound_fails_foreign_membership           state {0101, 0110}        proof(0101) as "0110 holds 0101's value"
 //	crashes_on_honest_proof_for_other_key    state {0001, 0100, 1011}  proof(1011) as "0001 is absent"
 //	crashes_on_malformed_proof               an empty sibling key / a one-byte key, any root
+//	store_complete_fails_witness             Store: commit {3 keys}, NewReadOnly(1).GetProof for a present and an absent key
 func RunWitnesses(o *drv.Out, v *Verifier, lim *limiter) {
 	u := c08.NewUniverse(4, false)
 	key := func(x int) c08.UKey {
@@ -100,4 +108,82 @@ func RunWitnesses(o *drv.Out, v *Verifier, lim *limiter) {
 			lim.fail("C16:verifyproof-panic", "malformed proof (empty or one-byte node key) → "+res, map[string]any{"key_bits": 4, "call": "verify " + req})
 		}
 	}
+	// store level: the proof a read-only store serves must verify against the root committed for that version
+	o.Case("witness store-level proof")
+	sti, err := store.NewStoreInMemory(lib.NewNullLogger())
+	if err != nil {
+		panic(err)
+	}
+	st := sti.(*store.Store)
+	defer st.DB().Close()
+	o.Op("store", "ok")
+	u160 := c08.NewUniverse(160, false)
+	var hist []string
+	var ks []c08.UKey
+	for i := 0; len(ks) < 4; i++ {
+		if k := u160.Keys[i]; !u160.Reserved(k.Bits) && !u160.Border[k.Bits] {
+			ks = append(ks, k)
+		}
+	}
+	for i, k := range ks[:3] {
+		val := []byte{byte(i + 1), 0xBB}
+		if e := st.Set(k.User, val); e != nil {
+			panic(e)
+		}
+		line := "set " + drv.Hex(k.User) + " " + drv.Hex(val)
+		hist = append(hist, line)
+		o.Op(line, "ok")
+	}
+	root, e := st.Commit()
+	if e != nil {
+		panic(e)
+	}
+	hist = append(hist, "commit")
+	o.Op("commit", fmt.Sprintf("root %s l0 same version %d", drv.Hex(root), st.Version()))
+	for _, q := range []struct {
+		k          c08.UKey
+		val        []byte
+		membership bool
+	}{{ks[0], []byte{1, 0xBB}, true}, {ks[3], nil, false}} {
+		m := "n"
+		if q.membership {
+			m = "m"
+		}
+		op := fmt.Sprintf("sproof %d %s %s %s", st.Version(), drv.Hex(q.k.User), drv.Hex(q.val), m)
+		res := storeProof(st, st.Version(), q.k.User, q.val, q.membership, root)
+		hist = append(hist, op)
+		o.Op(op, res)
+		o.Count("witness:store:" + res[strings.LastIndex(res, " ")+1:])
+		if !strings.HasSuffix(res, "verdict accept") {
+			lim.fail("C16:readonly-store-proof-prefix",
+				fmt.Sprintf("corpus: NewReadOnly(%d).GetProof(%x) does not verify against the committed root (%s): %s", st.Version(), q.k.User, m, res[:min(len(res), 160)]),
+				map[string]any{"history": hist})
+		}
+	}
+}
+
+// storeProof asks a read-only store of the given version for a proof and verifies it against the committed root.
+func storeProof(st *store.Store, version uint64, key, val []byte, membership bool, committedRoot []byte) string {
+	return drv.Recover(func() string {
+		ro, e := st.NewReadOnly(version)
+		if e != nil {
+			return errKind(e)
+		}
+		roRoot, e := ro.Root()
+		if e != nil {
+			return errKind(e)
+		}
+		proof, e := ro.GetProof(key)
+		if e != nil {
+			return errKind(e)
+		}
+		verdict := "reject"
+		ok, e := ro.VerifyProof(key, val, membership, committedRoot, proof)
+		if e != nil {
+			verdict = errKind(e)
+		} else if ok {
+			verdict = "accept"
+		}
+		return fmt.Sprintf("roroot %s proof %s verdict %s", drv.Hex(roRoot), ShowProof(proof), verdict)
+	})
 }
